@@ -93,6 +93,18 @@ type Evaluator struct {
 // Eval applies f to the ordered cells of one row. A nil filter passes everything.
 func (e *Evaluator) Eval(f *Filter, key string, in []Cell) EvalResult { return e.eval(f, key, in, false) }
 
+// distinctDup reports whether the list holds two cells of one (family, qualifier, timestamp) that differ in
+// value or labels; their relative order after an interleave is unspecified.
+func distinctDup(cs []Cell) bool {
+	for i := 1; i < len(cs); i++ {
+		a, b := cs[i-1], cs[i]
+		if a.Fam == b.Fam && a.Qual == b.Qual && a.TS == b.TS && (a.Val != b.Val || strings.Join(a.Labels, ",") != strings.Join(b.Labels, ",")) {
+			return true
+		}
+	}
+	return false
+}
+
 func multiFam(cs []Cell) bool {
 	for i := 1; i < len(cs); i++ {
 		if cs[i].Fam != cs[0].Fam {
@@ -181,7 +193,7 @@ func (e *Evaluator) eval1(f *Filter, key string, in []Cell, merged bool) EvalRes
 			return EvalResult{MayErr: true}
 		}
 		if int(f.N) < len(in) {
-			if merged && multiFam(in) {
+			if merged && (multiFam(in) || distinctDup(in)) {
 				e.Ambiguous = true
 			}
 			return EvalResult{Cells: in[:f.N]}
@@ -192,7 +204,7 @@ func (e *Evaluator) eval1(f *Filter, key string, in []Cell, merged bool) EvalRes
 			return invalid()
 		}
 		if int(f.N) < len(in) {
-			if merged && multiFam(in) && f.N > 0 {
+			if merged && (multiFam(in) || distinctDup(in)) && f.N > 0 {
 				e.Ambiguous = true
 			}
 			return EvalResult{Cells: in[f.N:]}
@@ -204,6 +216,9 @@ func (e *Evaluator) eval1(f *Filter, key string, in []Cell, merged bool) EvalRes
 		}
 		if f.N == 0 {
 			return EvalResult{MayErr: true}
+		}
+		if merged && distinctDup(in) {
+			e.Ambiguous = true
 		}
 		var out []Cell
 		cnt := 0
@@ -399,8 +414,9 @@ func CountSamples(f *Filter) int {
 // returns the admissible results.
 func Outcomes(f *Filter, key string, in []Cell) []EvalResult {
 	n := CountSamples(f)
-	if n > 4 {
-		n = 4
+	if n > 6 {
+		// too many independent coin flips to enumerate: not decided
+		return []EvalResult{{Ambiguous: true}}
 	}
 	var res []EvalResult
 	for mask := 0; mask < 1<<n; mask++ {
